@@ -23,6 +23,14 @@ Proof.
   rewrite Hl in H. exact H.
 Qed.
 
+Lemma filter_unlisted_regular exc known (tbl : list struct_desc) :
+  (forall s, In s tbl -> listed exc known s = false -> regularb s = true) ->
+  forall s, In s (filter (fun s => negb (listed exc known s)) tbl) -> regularb s = true.
+Proof.
+  intros H s Hs. apply filter_In in Hs. destruct Hs as [Hin Hl]. apply (H s Hin).
+  destruct (listed exc known s); [discriminate | reflexivity].
+Qed.
+
 Lemma every_wrapper_ok (tbl : list wrapper_desc) :
   forallb ok_wrapper tbl = true -> forall w, In w tbl -> wrapper_issues w = [].
 Proof.
